@@ -7,7 +7,7 @@ from .c04 import mech
 
 RULE = ("(A) Mech.tla PureConstruction: over every history of string construction, option changes, mutation and cache "
         "eviction (capacity 1, 2 keys) the constructed value equals what the string denotes under the options in force; the "
-        "negative control without options in the cache key must violate it. (C) seeded random histories of ~420 calls each over "
+        "negative control without options in the cache key must violate it. (B) behaviours of the mechanism model (MechSim.tla, tlc -simulate) replayed on the real classes: construction from a literal key and from a key that reads options.mxfp_overflow, by constructor and fromstring, interleaved with option changes, in-place changes of earlier results and eviction (cache capacity 1 in the model; the same two keys alternate on the real 256-entry cache) - with the options missing from the cache key TLC rejects these behaviours. (C) seeded random histories of ~420 calls each over "
         "330 distinct literal keys with Zipf-like reuse (so all 256-entry LRU caches hit, miss and evict): construction from "
         "bin/hex strings and fromstring, token strings with embedded values incl. option-dependent exp-Golomb tokens, pack / "
         "unpack / readlist with a large family of format strings in several spellings, Dtype creation by name over ~290 lengths, "
@@ -21,6 +21,8 @@ def run(chk):
     rng = random.Random(chk.seed * 91 + 9)
     chk.queue([isoprogs.history_program(rng) for _ in range(700 if thorough else 160)], 'random-histories')
     chk.queue([isoprogs.history_program(rng, length=80, nkeys=40) for _ in range(2000 if thorough else 400)], 'random-short-histories')
+    from . import common
+    common.run_mech_behaviours(chk, num=2000 if thorough else 300, procs=4)
     mech(chk, thorough)
     chk.flush()
     return chk.finish(rule=RULE, assumptions=ASSUME)
